@@ -170,8 +170,13 @@ void run(const Value& plan, Result& r)
         if (!(p2 > need))
             r.fail(o.extrapolation ? "C02.order_not_above_three:weighted_euclidean" : "C02.order_below_two:weighted_euclidean",
                    fmt("order %.2f on the finest pair; %s %s", p2, tab.c_str(), r.signature.c_str()));
+        // F15 (DESIGN 7): on an anisotropically refined base grid the maximum-norm order of the extrapolated solution
+        // sags below 3 on fine rungs (2.8 measured at 129x256 and 257x512; the weighted Euclidean order stays > 3.5).
+        // Keyed by base grid and by a mild shortfall (>= 2.5), so that a lost order is still an alarm.
+        const bool f15 = o.extrapolation && o.aniso > 0 && pinf >= 2.5;
         if (!(pinf > need))
-            r.fail(o.extrapolation ? "C02.order_not_above_three:maximum" : "C02.order_below_two:maximum",
+            r.fail(f15 ? "C02.order_not_above_three:maximum[anisotropic_base_grid,order>=2.5]"
+                   : o.extrapolation ? "C02.order_not_above_three:maximum" : "C02.order_below_two:maximum",
                    fmt("order %.2f on the finest pair; %s %s", pinf, tab.c_str(), r.signature.c_str()));
     }
     else
